@@ -18,7 +18,9 @@
                          preorder (C07_structure: the preorder IS the kept entries in source order); every node is checked
                          against its entry, a mismatch is an Unmodelled outcome, never a made-up value
      est_items/est_parse estruct.clause_pattern.finditer over the WHOLE cobol keyword text (level number, data name, every
-                         clause) - case-sensitive, no word boundaries: the decoder's second parse of the entry
+                         clause) - case-sensitive; the word boundaries are those the pattern HAS (Gen/PipelineParams.v: a
+                         negative lookbehind in front of both alternatives, a negative lookahead after the usage word; none
+                         of them before the repair of finding K-name-contains-usage): the decoder's second parse of the entry
      calcsize_text       EBCDIC.calcsize = estruct.calcsize(schema cobol text)
      build               JSONSchemaMaker.build_json_schema with EVERY keyword it emits, in dict insertion order.  The maker
                          mutates shared dicts (the REDEFINES branch updates names[parent.unique_name], whichever dict that is
@@ -96,6 +98,14 @@ Definition w_PICTURE : str := [80; 73; 67; 84; 85; 82; 69].
    in this order) *)
 Definition est_usage_words : list str := SR.Gen.PipelineParams.est_usage_words.
 Definition est_pic_words : list str := SR.Gen.PipelineParams.est_pic_words.
+(* the word boundaries of the pattern, read from the source as well: is there a negative lookbehind in front of the whole
+   alternation / a negative lookahead behind the usage alternation, and the character class of each (code-point ranges) *)
+Record est_bounds := { eb_before : bool; eb_before_class : list (N * N); eb_after : bool; eb_after_class : list (N * N) }.
+Definition est_bounds_now : est_bounds :=
+  {| eb_before := SR.Gen.PipelineParams.est_kw_boundary_before; eb_before_class := SR.Gen.PipelineParams.est_before_class;
+     eb_after := SR.Gen.PipelineParams.est_usage_boundary_after; eb_after_class := SR.Gen.PipelineParams.est_after_class |}.
+(* the pattern before the repair: no assertion at all *)
+Definition est_bounds_old : est_bounds := {| eb_before := false; eb_before_class := []; eb_after := false; eb_after_class := [] |}.
 Definition usage_DISPLAY : N := 11.
 
 (* ------------------------------------------------------------------ small helpers *)
@@ -263,8 +273,12 @@ Fixpoint annot_forest (f : list SR.Model.Structure.tree) (xs : list info) : opti
   end.
 
 (* ------------------------------------------------------------------ estruct: the second parse of the entry *)
-(* clause_pattern = (USAGE ws+)? (IS ws+)? usage-word | (PIC|PICTURE) ws+ (IS ws+)? nonwhite+   -- no flags: case-sensitive,
-   no word boundary, no lookahead.  finditer over the whole format string. *)
+(* clause_pattern = B ( (USAGE ws+)? (IS ws+)? usage-word A | (PIC|PICTURE) ws+ (IS ws+)? nonwhite+ )   -- no flags: case-sensitive.
+   B = (?<![class]) : the character in front of the match, when there is one, is not in the class (also in front of PIC);
+   A = (?![class])  : the character behind the usage word, when there is one, is not in the class.  The usage words form an
+   ORDERED alternation: when the assertion fails behind one word the matcher tries the next word (COMP-3X: COMP-3 fails on X,
+   COMP fails on the hyphen), then the shorter choices of the optional words.  Both assertions are present or absent as the
+   source has them (the section variable b; est_bounds_now for the source as it is).  finditer over the whole format string. *)
 Fixpoint lit_cs (w s : str) : option str :=
   match w with
   | [] => Some s
@@ -288,16 +302,7 @@ Definition word_ws (w s : str) : option str :=
 Definition opt_word_ws (w s : str) : list str :=
   match word_ws w s with Some r => [r; s] | None => [s] end.
 
-Fixpoint est_usage_from (ws : list str) (i : N) (s : str) : option (N * str) :=
-  match ws with
-  | [] => None
-  | w :: r => match lit_cs w s with Some rest => Some (i, rest) | None => est_usage_from r (i + 1) s end
-  end.
-
-Definition est_usage_at (s : str) : option (N * str) := est_usage_from est_usage_words 0 s.
-
-Definition est_alt_usage (s : str) : option (N * str) :=
-  SR.Model.Clauses.first_some est_usage_at (flat_map (opt_word_ws w_IS) (opt_word_ws w_USAGE s)).
+Definition in_ranges (c : N) (rs : list (N * N)) : bool := existsb (fun r => (fst r <=? c) && (c <=? snd r)) rs.
 
 (* (IS ws+)? nonwhite+ : the optional group is given up when nothing follows it *)
 Definition est_pic_body (s : str) : option (str * str) :=
@@ -311,31 +316,74 @@ Definition est_alt_picture (s : str) : option (str * str) :=
 
 Inductive est_item := EUsage (u : N) | EPicture (p : str).
 
-Definition est_token_at (s : str) : option (est_item * str) :=
-  match est_alt_usage s with
-  | Some (u, r) => Some (EUsage u, r)
-  | None => match est_alt_picture s with
-            | Some (p, r) => Some (EPicture p, r)
-            | None => None
-            end
+Section Bounds.
+Variable b : est_bounds.
+
+(* the negative lookbehind: prev = the character in front of the position (None at the start of the string) *)
+Definition est_before_ok (prev : option N) : bool :=
+  match prev with
+  | None => true
+  | Some c => negb (eb_before b && in_ranges c (eb_before_class b))
   end.
 
-(* [skip] = characters of the current match still to be passed over *)
-Fixpoint est_scan (skip : nat) (s : str) : list est_item :=
+(* the negative lookahead behind a usage word *)
+Definition est_after_ok (rest : str) : bool :=
+  match rest with
+  | [] => true
+  | c :: _ => negb (eb_after b && in_ranges c (eb_after_class b))
+  end.
+
+Fixpoint est_usage_from_b (ws : list str) (i : N) (s : str) : option (N * str) :=
+  match ws with
+  | [] => None
+  | w :: r => match lit_cs w s with
+              | Some rest => if est_after_ok rest then Some (i, rest) else est_usage_from_b r (i + 1) s
+              | None => est_usage_from_b r (i + 1) s
+              end
+  end.
+
+Definition est_usage_at_b (s : str) : option (N * str) := est_usage_from_b est_usage_words 0 s.
+
+Definition est_alt_usage_b (s : str) : option (N * str) :=
+  SR.Model.Clauses.first_some est_usage_at_b (flat_map (opt_word_ws w_IS) (opt_word_ws w_USAGE s)).
+
+Definition est_token_at_b (prev : option N) (s : str) : option (est_item * str) :=
+  if est_before_ok prev then
+    match est_alt_usage_b s with
+    | Some (u, r) => Some (EUsage u, r)
+    | None => match est_alt_picture s with
+              | Some (p, r) => Some (EPicture p, r)
+              | None => None
+              end
+    end
+  else None.
+
+(* [prev] = the character in front of s in the format string; [skip] = characters of the current match still to be passed
+   over (the next search starts where the match ended, and its lookbehind sees the last character of that match) *)
+Fixpoint est_scan_b (prev : option N) (skip : nat) (s : str) : list est_item :=
   match s with
   | [] => []
   | c :: t =>
       match skip with
-      | S k => est_scan k t
+      | S k => est_scan_b (Some c) k t
       | O =>
-          match est_token_at s with
-          | Some (i, rest) => i :: est_scan (length t - length rest) t
-          | None => est_scan 0 t
+          match est_token_at_b prev s with
+          | Some (i, rest) => i :: est_scan_b (Some c) (length t - length rest) t
+          | None => est_scan_b (Some c) 0 t
           end
       end
   end.
 
-Definition est_items (format : str) : list est_item := est_scan 0 format.
+Definition est_items_b (format : str) : list est_item := est_scan_b None 0 format.
+End Bounds.
+
+(* the source as it is *)
+Definition est_usage_from := est_usage_from_b est_bounds_now.
+Definition est_usage_at := est_usage_at_b est_bounds_now.
+Definition est_alt_usage := est_alt_usage_b est_bounds_now.
+Definition est_token_at := est_token_at_b est_bounds_now.
+Definition est_scan := est_scan_b est_bounds_now.
+Definition est_items (format : str) : list est_item := est_items_b est_bounds_now format.
 
 (* the loop of Representation.parse: the last usage and the last picture win; every picture goes through
    normalize_picture at once (ValueError) *)
@@ -351,9 +399,9 @@ Fixpoint est_loop (l : list est_item) (u : N) (pic : list SR.Model.Picture.elt) 
       end
   end.
 
-(* estruct.calcsize(format) *)
-Definition calcsize_text (format : str) : R N :=
-  rbind (est_loop (est_items format) usage_DISPLAY []) (fun up =>
+(* estruct.calcsize(format), after the scan *)
+Definition calcsize_items (items : list est_item) : R N :=
+  rbind (est_loop items usage_DISPLAY []) (fun up =>
     let (u, es) := up in
     match SR.Model.Picture.size_loop es 0 with
     | Err e => RErr e                                         (* DesignError: an element without text, 9(0) *)
@@ -368,6 +416,11 @@ Definition calcsize_text (format : str) : R N :=
           | Err e => RErr e
           end
     end).
+
+(* estruct.calcsize(format) *)
+Definition calcsize_text (format : str) : R N := calcsize_items (est_items format).
+(* the same with other word boundaries in the pattern (est_bounds_old: the pattern before the repair) *)
+Definition calcsize_text_b (b : est_bounds) (format : str) : R N := calcsize_items (est_items_b b format).
 
 (* ------------------------------------------------------------------ json_type *)
 (* str.upper() maps exactly the characters 9 P S V p s v and U+017F into the set S V P 9; Model/JsonType.v upper-cases
